@@ -210,23 +210,23 @@ class Resolver:
         while cur is not None:
             sc = self.scope(cur)
             if name in sc.bind:
-                key = (cur.qualname, name)
-                if key in _seen:
-                    return set()
-                _seen = _seen | {key}
                 out: set[T] = set()
-                for kind, node in sc.bind[name]:
+                for idx, (kind, node) in enumerate(sc.bind[name]):
+                    key = (cur.qualname, name, idx)
+                    if key in _seen:
+                        continue          # x = compose(f, x): the inner x denotes the *other* bindings of x
+                    seen2 = _seen | {key}
                     if kind == "param":
                         out.add(T("param", f"{cur.qualname}:{name}"))
                     elif kind == "def":
                         qn = f"{cur.qualname}.{node.name}"
                         out.add(T("func", qn) if qn in self.prog.funcs else UNKNOWN)
                     elif kind == "assign":
-                        out |= self.resolve(node, cur, u, depth + 1, _seen)
+                        out |= self.resolve(node, cur, u, depth + 1, seen2)
                     elif kind == "import":
                         out |= self._import_target(node.value, depth)
                     elif kind == "iter":
-                        out |= self._resolve_iter_elem(node, cur, u, depth + 1, _seen)
+                        out |= self._resolve_iter_elem(node, cur, u, depth + 1, seen2)
                     elif kind == "aug":
                         pass
                     else:
